@@ -4,8 +4,8 @@ from props.util import *
 rule = ("SD, MAD >= 0 and never NaN; TR, ATR >= 0 for bars with low <= high; MIN <= MAX on the same stream; lower <= average <= upper for BB and KC with "
         "multipliers {0, 0.5, 2, 1e6}; CE long <= window max, short >= window min; MACD / PPO histogram == line - signal exactly; SMA, WMA within "
         "[window min, window max] and EMA within [history min, history max] up to tau(t)*maxmag: cancellation-prone streams (large values then flat, "
-        "nearly flat after spikes), signed values up to 1e12, tiny units, periods 1..16 and sampled to 64; all runs also compared bit-exactly with "
-        "the float model. Non-trivial: distinct case longer than the period with inputs not all equal")
+        "nearly flat after spikes), signed values up to 1e12, bars at negative price levels, tiny units, periods 1..16 and sampled to 64; all runs also compared bit-exactly with "
+        "the float model. Every third case also runs as a copy with one reset() after the window has wrapped. Non-trivial: distinct case longer than the period with inputs not all equal")
 assumptions = ["window extremes for the bound checks are computed by the driver from the inputs (exact comparisons)"]
 
 KINDS = ["SD", "MAD", "TR", "ATR", "BB", "KC", "CE", "MACD", "PPO", "SMA", "WMA", "EMA", "MINMAX"]
@@ -40,7 +40,12 @@ def gen_cases(ctx):
                 k = nper(ind)
                 pr = (p if k >= 1 else 0, r.choice([1, p, 2 * p]) if k >= 2 else 0, r.choice([1, 3]) if k >= 3 else 0, m if ind in HAS_MULT else 0.0)
                 if ind in ("TR", "ATR", "CE", "KC") and (ind == "CE" or rep % 2 == 0):
-                    feeds = [("b", 0) + b for b in bar_stream(r, n, r.choice(["walk", "segments", "gaps", "grid", "tinybars"]), p=p)]
+                    bs = bar_stream(r, n, r.choice(["walk", "segments", "gaps", "grid", "tinybars"]), p=p)
+                    if rep % 3 == 2:
+                        # negative price levels (spreads, futures): the same bars moved below zero; low <= high is preserved by monotone rounding
+                        D = 2.0 * max(abs(v) for b in bs for v in b[:4]) + 1.0
+                        bs = [(b[0] - D, b[1] - D, b[2] - D, b[3] - D, b[4]) for b in bs]
+                    feeds = [("b", 0) + b for b in bs]
                 elif rep % 3 == 0:
                     feeds = [("n", 0, x) for x in cancel_stream(r, n, p)]
                 else:
@@ -54,7 +59,7 @@ def gen_cases(ctx):
     for p in (1, 2, 3):
         cases.append(Case("OVF_SD_p%d" % p, [new_op(0, "SD", (p, 0, 0, 0.0))] + [("n", 0, x) for x in (H, -H, H)], dump=(0,),
                           meta={"ind": "SD", "p": p, "n": 3, "m": 0.0, "ovf": True}))
-    return cases
+    return sprinkle_resets([c for c in cases if c.meta["ind"] != "MINMAX"]) + [c for c in cases if c.meta["ind"] == "MINMAX"]
 
 
 def nontrivial(c):
@@ -82,6 +87,9 @@ def check_impl(ctx, cases):
         M = 0.0
         hist = []
         for o, ob in zip(feeds, c.obs[1:]):
+            if o[0] == "r":          # reset: a new life, the reference history restarts
+                hist = []
+                continue
             v = f_of(ob)
             if v is None:
                 continue
